@@ -3,6 +3,7 @@ C13 round 3 lemmas: the root commits to the leaf list, order independence, last 
 -/
 import BV.C13.LemmasMerkle
 import BV.C13.LemmasBip68
+import BV.C13.LemmasBasic
 namespace BV.C13.Lemmas
 open BV.C13 BV.C13.Spec
 
@@ -92,4 +93,53 @@ theorem txSigOpCost_perm (i1 i2 : List (Bytes × List Bytes × Bytes)) (o1 o2 : 
   rw [(pi.map _).sum_nat, (po.map _).sum_nat, (pi.map (fun i => if isP2SH i.2.2 then p2shSigOps i.1 i.2.2 else 0)).sum_nat,
     (pi.map (fun i => witnessSigOps i.1 i.2.2 i.2.1)).sum_nat]
 
+/-- `MsgBlock.BtcEncode`: 80 header bytes, the transaction count, the transactions -/
+def serializeBlock (hdr : Bytes) (txs : List Tx) (wit : Bool) : Bytes :=
+  hdr ++ varInt txs.length ++ (txs.map (fun t => t.serialize wit)).flatten
+
+theorem blockWeight_eq_serialized (hdr : Bytes) (txs : List Tx) (hh : hdr.length = 80)
+    (hw : ∀ t ∈ txs, Tx.wf t) :
+    blockWeight txs = 3 * (serializeBlock hdr txs false).length + (serializeBlock hdr txs true).length := by
+  unfold serializeBlock blockWeight WITNESS_SCALE_FACTOR
+  simp only [List.length_append, hh, varInt_length]
+  rw [flatten_map_length (fun t => t.serialize false) Tx.baseSize txs (fun t ht => serialize_stripped_length t (hw t ht)),
+    flatten_map_length (fun t => t.serialize true) Tx.totalSize txs (fun t ht => serialize_full_length t (hw t ht))]
+  omega
+
+/-- the quirk of `GetSigOpCost`: with BIP16 on, a spent output that is missing while the P2SH
+    sigops are counted does not produce an error but the cost 0 -/
+theorem sigOpCost_missing_quirk (t : Tx) (utxos : List Utxo) (sw : Bool)
+    (h : countP2SHSigOps t false utxos = none) : getSigOpCost t false utxos true sw = some 0 := by
+  unfold getSigOpCost
+  simp [h]
+
+/-- without BIP16 the same situation is an error as soon as segwit counting runs -/
+theorem sigOpCost_missing_segwit (t : Tx) (utxos : List Utxo) (n : Nat)
+    (h : witnessLoop (t.ins.zip utxos) n = none) (hn : n = countSigOps t * WITNESS_SCALE_FACTOR) :
+    getSigOpCost t false utxos false true = none := by
+  unfold getSigOpCost
+  simp [← hn, h]
+
+/-- `ExtractCoinbaseHeight` reports a missing height exactly for an empty script or a push that is
+    longer than what follows -/
+theorem coinbaseHeight_missing_iff (op : UInt8) (rest : Bytes) :
+    extractCoinbaseHeight [] = .missing ∧
+    (extractCoinbaseHeight (op :: rest) = .missing ↔
+      op.toNat ≠ 0 ∧ ¬ (op.toNat ≥ 0x51 ∧ op.toNat ≤ 0x60) ∧ rest.length < op.toNat) := by
+  refine ⟨rfl, ?_⟩
+  simp only [extractCoinbaseHeight]
+  by_cases h0 : op.toNat = 0
+  · simp [h0]
+  · by_cases h1 : op.toNat ≥ 0x51 ∧ op.toNat ≤ 0x60
+    · rw [if_neg h0, if_pos h1]
+      constructor
+      · intro h; cases h
+      · intro h; exact absurd h1 h.2.1
+    · by_cases h2 : rest.length < op.toNat
+      · rw [if_neg h0, if_neg h1, if_pos h2]
+        exact ⟨fun _ => ⟨h0, h1, h2⟩, fun _ => rfl⟩
+      · rw [if_neg h0, if_neg h1, if_neg h2]
+        constructor
+        · intro h; split at h <;> cases h
+        · intro h; exact absurd h.2.2 h2
 end BV.C13.Lemmas
